@@ -119,46 +119,69 @@ func VerifC21_Iterate() {
 	zzverif.Reach("C21-iterate")
 }
 
-// VerifC21_Snapshot: sequential core of "iteration concurrent with updates":
-// EachBin/EachBinRev read a bin slice under the read lock and walk it after
-// releasing the lock, so an update must never write an element of a bin slice
-// that was visible before the update (copy-on-remove, append-on-add). The
-// harness takes the bin slices exactly as an iteration would (s.peers[b]),
-// performs one more arbitrary operation and compares the old slices with
-// their saved contents. (Race freedom under real schedules is outside.)
+// verifC21snap: one bin slice exactly as an iteration loads it (the slice
+// header s.peers[b], taken under the read lock) and its contents at that time.
+type verifC21snap struct {
+	hdr   []boson.Address
+	saved [][]byte
+}
+
+// verifC21take appends the non-empty bin slices an iteration starting (or
+// reaching its next bin) now would hold.
+func verifC21take(s *PSlice, maxBins int, snaps []verifC21snap) []verifC21snap {
+	for b := 0; b < maxBins; b++ {
+		s.mu.RLock()
+		h := s.peers[b]
+		s.mu.RUnlock()
+		if len(h) == 0 {
+			continue
+		}
+		sn := verifC21snap{hdr: h}
+		for _, p := range h {
+			sn.saved = append(sn.saved, p.Bytes())
+		}
+		snaps = append(snaps, sn)
+	}
+	return snaps
+}
+
+// VerifC21_Snapshot: sequential core of "iteration concurrent with updates is
+// free of data races": EachBin/EachBinRev read a bin slice under the read lock
+// and walk it after releasing the lock, so NO later update may write an
+// element of a bin slice that was visible at any earlier time (copy-on-remove,
+// append-on-add beyond every length handed out before). The harness runs a
+// short symbolic history and, after every operation but the last, takes the
+// non-empty bin slices exactly as an iteration would (s.peers[b]) together
+// with their contents; at the end of the history every slice taken at any
+// time must still show the contents it had when it was taken. An iteration
+// that loaded its bin after operation t and is overtaken by the operations
+// t+1..n (e.g. a removal followed by an addition into the same bin) is thus
+// covered for every t. (A write that stores the value already there is not
+// seen; race freedom under real schedules is outside.)
 func VerifC21_Snapshot() {
-	steps := zzverif.Param("steps", 2, 3)
-	budget := zzverif.Param("addresses", 2, 3) // for the history before the snapshot
+	steps := zzverif.Param("steps", 3, 4)
+	budget := zzverif.Param("addresses", 3, 4)
 	npat := zzverif.Param("patterns", 2, 2)
 	zzverif.Unwind(64)
 	const maxBins = 3
 	g := verifC21gen{mode: 1, pats: verifC21pats[:npat]}
 	base := g.base()
-	s, r, _ := verifC21history(g, base, maxBins, steps-1, budget)
-
-	var snap [maxBins][]boson.Address // slice headers an iteration would hold
-	var saved [maxBins][][]byte       // their contents now
-	for b := 0; b < maxBins; b++ {
-		s.mu.RLock()
-		snap[b] = s.peers[b]
-		s.mu.RUnlock()
-		for _, p := range snap[b] {
-			saved[b] = append(saved[b], p.Bytes())
+	s := New(maxBins, boson.NewAddress(base))
+	r := &verifC21ref{}
+	dup, ended := false, false
+	var snaps []verifC21snap
+	for i := 0; i < steps; i++ {
+		budget -= verifC21step(g, s, r, budget, &dup, &ended)
+		if !ended && i < steps-1 {
+			// (a slice taken after the last operation cannot be overtaken)
+			snaps = verifC21take(s, maxBins, snaps)
 		}
 	}
 
-	dup, ended := false, false
-	// two arbitrary operations while the iteration still holds the slices (e.g.
-	// a removal followed by an addition into the same bin)
-	verifC21step(g, s, r, 3, &dup, &ended)
-	if !ended {
-		verifC21step(g, s, r, 2, &dup, &ended)
-	}
-
 	same := true
-	for b := 0; b < maxBins; b++ {
-		for i, p := range snap[b] {
-			if !verifC21eq(p.Bytes(), saved[b][i]) {
+	for _, sn := range snaps {
+		for i, p := range sn.hdr {
+			if !verifC21eq(p.Bytes(), sn.saved[i]) {
 				same = false
 			}
 		}
